@@ -59,7 +59,7 @@ Ltac pbl_prefix m fin :=
   | |- context[exec_block ?fe ?kr ?l ?en ?nx (fun en' nx' => exec_block ?fe ?kr ?l2 en' nx' ?k)] =>
     generalize (fun en' nx' => exec_block fe kr l2 en' nx' k)
   end;
-  let K := fresh "K" in intro K; pbl_run_sym; fin.
+  let K := fresh "K" in intro K; timeout 10 pbl_run_sym; fin.
 
 Ltac pbl_model := cbv [str_eq String.eqb Ascii.eqb Bool.eqb make_env resolve resolve_exn].
 
@@ -99,3 +99,62 @@ Ltac pbl_returns rw :=
   repeat match goal with |- _ /\ _ => split end;
   first [ reflexivity
         | (let i := fresh "i" in intro i; rw; rewrite ?Rplus_0_l; pbl_unfold_model; req) ].
+
+Open Scope string_scope.
+
+(* ---- the interpreter on small programs (sanity of the semantics the bridge relies on) *)
+
+(* defaults, arithmetic, return *)
+Example ex_default_and_return :
+  call [] (mkFun [("x", DNum 2); ("y", DNone)] [SReturn (EBin BAdd (EVar "x") (ENum 1))]) [("y", OptNum None)]
+  = Ok (VNum (2 + 1)).
+Proof. reflexivity. Qed.
+
+(* a supplied name that is no parameter, a missing required argument: TypeError *)
+Example ex_unknown_keyword :
+  call [] (mkFun [("x", DNum 2)] [SReturn (EVar "x")]) [("q", Given VNone)] = Err TypeError.
+Proof. reflexivity. Qed.
+Example ex_missing_required :
+  call [] (mkFun [("x", DReq)] [SReturn (EVar "x")]) [] = Err TypeError.
+Proof. reflexivity. Qed.
+
+(* arithmetic on None raises TypeError; raise; falling off the end returns None *)
+Example ex_none_arith :
+  call [] (mkFun [("u", DNone)] [SReturn (EBin BDiv (ENum 1) (EVar "u"))]) [] = Err TypeError.
+Proof. reflexivity. Qed.
+Example ex_raise : call [] (mkFun [] [SIf (EIsNone ENone) [SRaise ValueError] []; SReturn (ENum 1)]) [] = Err ValueError.
+Proof. reflexivity. Qed.
+Example ex_fall_off : call [] (mkFun [] [SAssign ["a"] (ENum 1)]) [] = Ok VNone.
+Proof. reflexivity. Qed.
+
+(* object identity: a chained assignment binds one array object, an arithmetic operation creates a new one *)
+Example ex_alias :
+  call [] (mkFun [] [SAssign ["z"] (EArange (ENum 0) (ENum 3) (ENum 1));
+                     SAssign ["a"; "b"] (EVar "z");
+                     SAssign ["c"] (EBin BMul (ENum 1) (EVar "z"));
+                     SReturn (ETuple [EVar "a"; EVar "b"; EVar "c"])]) []
+  = Ok (VTuple [VArr 0 0 (arange_len 0 3 1) (fun i => 0 + INR i * 1);
+                VArr 0 0 (arange_len 0 3 1) (fun i => 0 + INR i * 1);
+                VArr 1 0 (arange_len 0 3 1) (fun i => 1 * (0 + INR i * 1))]).
+Proof. reflexivity. Qed.
+
+(* z[0] / max on an array are guarded by its length; division by the int 0 raises *)
+Example ex_index_guard :
+  call [] (mkFun [] [SAssign ["z"] (EArange (ENum 0) (ENum 3) (ENum 1)); SLog [EIndex (EVar "z") 0]; SReturn ENone]) []
+  = guard (len_positive (arange_len 0 3 1)) IndexError (Ok VNone).
+Proof. reflexivity. Qed.
+Example ex_div_int_zero :
+  call [] (mkFun [("n", DReq)] [SReturn (EBin BDiv (ENum 1) (EVar "n"))]) [("n", Given (VInt 0))] = Err ZeroDivisionError.
+Proof. reflexivity. Qed.
+
+(* an elementwise function: np.where(x > 0, 2*x, nan) *)
+Example ex_efun x :
+  efun_eval (mkEFun "x" [("y", EBin BMul (ENum 2) (EVar "x"))] (EWhereGt (EVar "x") (ENum 0) (EVar "y") ENan)) x
+  = Some (if Rlt_dec 0 x then 2 * x else 0).
+Proof. reflexivity. Qed.
+
+(* vp_matches is a real constraint: a call that returns None matches no `Returns`, and `Raises e` only Err e *)
+Example ex_matches_strict c E : ~ vp_matches (Ok VNone) (Returns c E).
+Proof. intro H. exact H. Qed.
+Example ex_matches_exn : ~ vp_matches (Err TypeError) (Raises ValueError).
+Proof. intro H. discriminate H. Qed.
